@@ -218,6 +218,12 @@ def run_batch(seed, batch, tier):
                 if st.node["op"] == "table":
                     continue
                 use_terms = rng.random() < 0.5
+                if rng.random() < 0.2:
+                    # schema / catalog qualified tables
+                    for n_ in B.walk(case["recipe"]):
+                        if n_["op"] == "table":
+                            n_["qualifiers"] = rng.choice([{"schema": "s1"}, {"schema": "s 1", "catalog": "c'at"}])
+                    b.count("qualified_tables")
                 try:
                     p = B.build(case["recipe"], use_terms=use_terms)
                 except Exception as ex:
